@@ -408,6 +408,13 @@ def generate(L):
     if "deny_unknown_fields" in tm.group(1):
         raise L.GenError("AiTranscript denies unknown fields")
     tfields = parse_fields(L, tm.group(2), "AiTranscript")
+    psrc = L.strip_comments(L.read_src(FILES[1]))
+    am = re.search(r"((?:#\[[^\]]*\]\s*)*)struct\s+AiTabHookInput\s*\{([^}]*)\}", psrc)
+    if not am:
+        raise L.GenError("struct AiTabHookInput not found")
+    if "deny_unknown_fields" in am.group(1):
+        raise L.GenError("AiTabHookInput denies unknown fields")
+    afields = parse_fields(L, am.group(2), "AiTabHookInput")
 
     def s(x):
         return L.coq_str([ord(c) for c in x])
@@ -432,6 +439,7 @@ def generate(L):
     lines.append("Definition msg_variants : list (list N * list (list N * ftype * bool)) :=\n  [" +
                  ";\n   ".join("(" + s(snake(v)) + ", " + coq_fields(L, f, v) + ")" for v, f in mvariants) + "].")
     lines.append("Definition transcript_fields : list (list N * ftype * bool) := " + coq_fields(L, tfields, "AiTranscript") + ".")
+    lines.append("Definition aitab_fields : list (list N * ftype * bool) := " + coq_fields(L, afields, "AiTabHookInput") + ".")
     lines.append("(* ---- 5. panic-site inventory: (file, function, kind, count); functions reachable by name from handle_checkpoint *)")
     lines.append(f"Definition scanned_functions : N := {nfn}.")
     lines.append(f"Definition reachable_functions : N := {len(reach)}.")
